@@ -35,7 +35,7 @@ EXPLANATION = (
     "(reported). (R4) the 'full' test of add() must compare len(self._container) with self._bound_2 only; LIST must not size "
     "or index its container by bound_2 - bound_1. (R5) same query methods in all four classes and their return expressions. "
     "(R6) ARRAY.__getitem__ raises for None unless self._optional. "
-    "(R5/R6 are decided semantically: return expressions as linear forms over bound_1, bound_2, len(container); the unset-element guard executed for OPTIONAL x {unset, set-but-false, set}.) (R7) Type.get_type (BaseType.py) resolves a name in vars(self._scope), and a table of resolved types is keyed by every attribute of self that the look-up reads. (R8) check_type (TypeChecker.py), the only filter in front of every store, refuses None for every expected type: explored path by path with instance := None (isinstance(None, X) false, None in ids false, attribute access raises), no path returns True. Not decided: agreement of sizes, indices and uniqueness with a reference model over operation histories — that quantifies "
+    "(R5/R6 are decided semantically: return expressions as linear forms over bound_1, bound_2, len(container); the unset-element guard executed for OPTIONAL x {unset, set-but-false, set}.) (R7) Type.get_type (BaseType.py) resolves a name in vars(self._scope), and a table of resolved types is keyed by every attribute of self that the look-up reads. (R9) in every method of the four classes no raise is reached after a statement that has already changed self._container on the same path: a refused operation leaves the aggregate unchanged. (R8) check_type (TypeChecker.py), the only filter in front of every store, refuses None for every expected type: explored path by path with instance := None (isinstance(None, X) false, None in ids false, attribute access raises), no path returns True. Not decided: agreement of sizes, indices and uniqueness with a reference model over operation histories — that quantifies "
     "over run-time sequences; these rules show that each single operation is guarded the way EXPRESS requires.")
 
 PKG = "/repo/src/exp2python/python/stepcode"
@@ -154,6 +154,39 @@ def r7_base_type_resolution(res):
             "get_type keeps no table of resolved types (or keys it by everything the look-up reads: %s)" % reads if ok else
             "get_type remembers its result under the key `%s`, which does not contain %s although the look-up reads it: the same type name in "
             "another scope gets the class resolved for the first scope" % (bad[1], bad[2]))
+
+
+def r9_refusal_before_mutation(res, classes, methods):
+    """An operation that is refused leaves the aggregate as it was: in every method of ARRAY, LIST, BAG and SET no `raise` is reached
+    after a statement that has already stored the caller's element in (or removed one from) self._container on the same path (the
+    statements that precede the raise in its own block and in the enclosing blocks; padding an unbounded LIST with None is not a store).  `self._container.add(value)` followed by `if len(..) > capacity: raise` keeps the refused
+    element in the SET: SIZEOF exceeds HIBOUND and every later add() is refused."""
+    n = 0
+    for cls in CLASSES:
+        for mname, m in sorted(methods[cls].items()):
+            if mname == "__init__":
+                continue
+            raises = [(st, ctx) for st, ctx in contexts(m) if isinstance(st, ast.Raise)]
+            if not raises:
+                continue
+            n += 1
+            bad = None
+            for st, ctx in raises:
+                for b in ctx.before:
+                    # a mutation executed before the raise on every path to it
+                    # ... of the caller's element: padding an unbounded LIST with None up to the index is not a store of the element
+                    params = {a.arg for a in m.args.args if a.arg != "self"}
+                    muts = [x for x in ([b] if not isinstance(b, (ast.If, ast.For, ast.While, ast.Try, ast.With)) else [])
+                            if (container_store(x) is not None and isinstance(container_store(x)[2], ast.Name) and container_store(x)[2].id in params) or
+                            (isinstance(x, ast.Expr) and isinstance(x.value, ast.Call) and isinstance(x.value.func, ast.Attribute) and
+                             src(x.value.func.value) == "self._container" and x.value.func.attr in ("remove", "pop", "clear"))]
+                    if muts and bad is None:
+                        bad = (st, muts[0])
+            res.add("R9.refusal_before_mutation", "R9|%s|%s.%s" % (REL, cls, mname), "%s:%d" % (REL, bad[0].lineno if bad else m.lineno), bad is None,
+                    "every raise of %s.%s comes before the container is changed" % (cls, mname) if bad is None else
+                    "%s.%s changes the container at line %d (`%s`) and can still raise at line %d: the refused operation has already taken effect"
+                    % (cls, mname, bad[1].lineno, ast.unparse(bad[1])[:60], bad[0].lineno))
+    res.floor("R9.refusal_before_mutation", "methods that can refuse", n, 5)
 
 
 def r8_none_rejected_by_filter(res):
@@ -310,6 +343,7 @@ def run(prog, res, tier):
         res.broke("anchor vanished: class %s in %s" % (missing, REL))
         return
     methods = {c: {m.name: m for m in classes[c].body if isinstance(m, ast.FunctionDef)} for c in CLASSES}
+    r9_refusal_before_mutation(res, classes, methods)
     n_store = 0
     keyn = {}
 
@@ -419,7 +453,7 @@ def run(prog, res, tier):
                             res.add("R4.capacity_is_upper_bound", key("R4", cls, mname, "capacity"), where, False,
                                     "the 'full' test is `%s`: the capacity depends on the lower bound; EXPRESS allows up to bound_2 elements "
                                     "(a %s [2:5] must take a fifth element)" % (txt, cls))
-    res.floor("R1", "container stores of caller-supplied values", n_store, 8)
+    res.floor("R1", "container stores of caller-supplied values", n_store, 6)
     # ---- R4b LIST bounds model
     init = methods["LIST"].get("__init__")
     if init is not None:
